@@ -298,6 +298,52 @@ def fixed_specs() -> list[dict]:
     return out
 
 
+def reader_window() -> tuple[int, int]:
+    """(buffersize, max_buffers) of the BufferedReader `load_fragment` reads a stored segment
+    through – looked up from the code under test so that a changed default is followed"""
+    import inspect
+    import re
+    from dashlive.server.requesthandler.media_requests import MediaRequestBase
+    from dashlive.utils.buffered_reader import BufferedReader
+    sig = inspect.signature(BufferedReader.__init__).parameters
+    bs, mb = sig["buffersize"].default, sig["max_buffers"].default
+    src = inspect.getsource(MediaRequestBase.load_fragment)
+    call = re.search(r"BufferedReader\((.*?)\)", src, re.S)
+    if call:
+        m = re.search(r"buffersize\s*=\s*(\d+)", call.group(1))
+        bs = int(m.group(1)) if m else bs
+        m = re.search(r"max_buffers\s*=\s*(\d+)", call.group(1))
+        mb = int(m.group(1)) if m else mb
+    return int(bs), int(mb)
+
+
+def size_class_specs() -> list[dict]:
+    """size classes of stored segments relative to the cache window W = buffersize x max_buffers of
+    the reader used by load_fragment: a segment one byte short of W, exactly W, W+1, a few blocks
+    beyond W, more than 2W, and segments with thousands of samples"""
+    bs, mb = reader_window()
+    w = bs * mb
+
+    def fit(kw: dict, targets: list) -> dict:
+        # the moof size depends on the sample count only: measure it once, then size the payloads
+        probe = mp4synth.layout(mp4synth.make_track(**dict(kw, payload_bytes=None)))
+        pb = []
+        for seg, tgt in zip(probe, targets):
+            pb.append(None if tgt is None else tgt - seg["moof_size"] - 8)
+        return dict(kw, payload_bytes=pb)
+
+    video = fit(dict(kind="video", timescale=240, durations=[960] * 5, samples_per_segment=[6, 6, 6, 7, 3000],
+                     payload_size=14, seed=9001),
+                [w - 1, w, w + 1, w + 3 * bs + 17, None])
+    audio = fit(dict(kind="audio", timescale=48000, durations=[96000] * 2, samples_per_segment=[9, 1500],
+                     payload_size=30, seed=9002, encrypted=True, iv_size=8, subsamples=False, track_id=2,
+                     traf_order="senc_first"),
+                [2 * w + 5, None])
+    for kw in (video, audio):
+        kw.pop("kind")
+    return [{"video": video, "audio": audio, "aligned": False}]
+
+
 DRM_SETS = ["all", "playready", "clearkey", "marlin", "playready,clearkey", "marlin,playready",
             "playready,playready", "all-moov", "all-cenc", "playready-pro-cenc", "playready-moov,clearkey-cenc",
             "playready-pro", "clearkey-moov"]
@@ -487,7 +533,8 @@ def run_case(case: dict) -> dict:
         res["fails"] = [{"clause": "malformed", "detail": str(e)}]
         return res
     if k is None:
-        res["fails"] = [{"clause": "mdat", "detail": "the served mdat payload is not the payload of any stored segment of the track"}]
+        res["fails"] = [{"clause": "mdat", "detail": "the served mdat payload is not the payload of any stored segment of the track; "
+                         + payload_diff(t, md[0].payload(served) if len(md) == 1 else b"")}]
         return res
     res["k"] = k
     stored = t.stored(k)
@@ -518,6 +565,45 @@ def run_case(case: dict) -> dict:
         "1" if bug else "0"])
     res["n_emsg"] = len(emsg)
     return res
+
+
+def first_diff(a: bytes, b: bytes) -> int:
+    """offset of the first differing byte (min length when one is a prefix of the other)"""
+    lo, hi = 0, min(len(a), len(b))
+    if a[:hi] == b[:hi]:
+        return hi
+    while hi - lo > 1:
+        mid = (lo + hi) // 2
+        if a[:mid] == b[:mid]:
+            lo = mid
+        else:
+            hi = mid
+    return lo
+
+
+def payload_diff(t: Track, got: bytes) -> str:
+    """describe how a served payload differs from the closest stored payload of the track
+    (whole payload compared: length, first differing offset, number of differing bytes)"""
+    best = None
+    for k in range(1, t.nseg + 1):
+        try:
+            boxes = mp4walk.walk(t.stored(k), iv_size=t.iv)
+        except mp4walk.WalkError:
+            continue
+        for b in boxes:
+            if b.type == "mdat":
+                ref = b.payload(t.stored(k))
+                n = min(len(ref), len(got))
+                same = sum(1 for i in range(0, n, 1) if ref[i] == got[i]) if n <= 4_000_000 else 0
+                cand = (len(ref) == len(got), same, k, ref)
+                if best is None or cand[:2] > best[:2]:
+                    best = cand
+    if best is None:
+        return f"served payload has {len(got)} bytes"
+    _, same, k, ref = best
+    return (f"closest stored segment {k}: stored payload {len(ref)} bytes (sha1 {hashlib.sha1(ref).hexdigest()[:12]}), "
+            f"served {len(got)} bytes (sha1 {hashlib.sha1(got).hexdigest()[:12]}), first differing offset "
+            f"{first_diff(ref, got)}, {min(len(ref), len(got)) - same} differing bytes in the common length")
 
 
 def case_json(case: dict) -> dict:
@@ -688,6 +774,13 @@ def channels(ctx):
                            [{}, {"events": "ping", "ping__interval": "50"}]):
                     if "events" in ov and t.kind != "video":
                         continue
+                    cases.append({"src": t.spec, "mode": "vod", "addr": "number", "url": vod_url(t, k, ov, "number"),
+                                  "now": "2024-02-03T04:05:06Z", "ov": ov})
+    for spec in size_class_specs():
+        for t in synth_stream(spec):
+            for k in range(1, t.nseg + 1):
+                for ov in ([{"drm": "all"}, {"drm": "clearkey"}] if t.enc else
+                           [{}, {"events": "ping", "ping__interval": "50"}]):
                     cases.append({"src": t.spec, "mode": "vod", "addr": "number", "url": vod_url(t, k, ov, "number"),
                                   "now": "2024-02-03T04:05:06Z", "ov": ov})
     cases += gen_cases(rng, tracks, ctx.scale(2300, 34000))
